@@ -128,9 +128,11 @@ static void scan_includes(const char *file, int depth) {
 }
 
 static void write_out(const char *path, const char *kind, int executable) {
-    char b[256];
+    char b[512];
     int n;
-    if (executable) n = snprintf(b, sizeof b, "#!/bin/sh\n# stub %s %016llx\nexit 0\n", kind, (unsigned long long)H);
+    if (executable) n = snprintf(b, sizeof b, "#!/bin/sh\n# stub %s %016llx\n"
+        "[ -n \"$VERIF_LOG\" ] && printf '{\"tool\":\"testexe\",\"argv\":[\"%%s\"],\"cwd\":\"%%s\",\"env\":{},\"inputs\":[],\"outputs\":[]}\\n' \"$0\" \"$PWD\" >> \"$VERIF_LOG\"\nexit 0\n",
+        kind, (unsigned long long)H);
     else n = snprintf(b, sizeof b, "stub %s %016llx\n", kind, (unsigned long long)H);
     int fd = open(path, O_WRONLY | O_CREAT | O_TRUNC, executable ? 0755 : 0644);
     if (fd < 0) { fprintf(stderr, "stub: cannot write %s: %s\n", path, strerror(errno)); exit(1); }
@@ -269,6 +271,46 @@ static int archiver(const char *tool, int argc, char **argv) {
     return miss;
 }
 
+/* gen OUT... -- IN... : creates every OUT from a hash of argv and all IN contents; fails on missing IN */
+static int generator(const char *tool, int argc, char **argv) {
+    int sep = 0, miss = 0;
+    for (int i = 1; i < argc; i++) hbytes(argv[i], strlen(argv[i]) + 1);
+    for (int i = 1; i < argc; i++) {
+        if (!strcmp(argv[i], "--")) { sep = 1; continue; }
+        if (!sep) { if (nout < MAXF) outputs[nout++] = argv[i]; }
+        else {
+            if (nin < MAXF) inputs[nin++] = argv[i];
+            if (!exists(argv[i])) { fprintf(stderr, "stub gen: missing input %s\n", argv[i]); miss = 1; }
+            else hfile(argv[i]);
+        }
+    }
+    if (!miss) for (int i = 0; i < nout; i++) write_out(outputs[i], "generated", 0);
+    else nout = 0;
+    log_record(tool, argc, argv);
+    return miss;
+}
+
+/* cp [-f] SRC DST : really copies (content only), logged */
+static int copier(const char *tool, int argc, char **argv) {
+    const char *src = 0, *dst = 0;
+    for (int i = 1; i < argc; i++) {
+        if (argv[i][0] == '-' && argv[i][1]) continue;
+        src = dst; dst = argv[i];
+    }
+    if (!src || !dst) return 1;
+    inputs[nin++] = src;
+    FILE *in = fopen(src, "rb");
+    if (!in) { fprintf(stderr, "stub cp: missing input %s\n", src); log_record(tool, argc, argv); return 1; }
+    FILE *out = fopen(dst, "wb");
+    if (!out) { fprintf(stderr, "stub cp: cannot write %s\n", dst); fclose(in); log_record(tool, argc, argv); return 1; }
+    char b[65536]; size_t n;
+    while ((n = fread(b, 1, sizeof b, in)) > 0) fwrite(b, 1, n, out);
+    fclose(in); fclose(out);
+    outputs[nout++] = dst;
+    log_record(tool, argc, argv);
+    return 0;
+}
+
 static int driver(const char *tool, int argc, char **argv) {
     log_record(tool, argc, argv);
     int rc = 0;
@@ -289,6 +331,8 @@ int main(int argc, char **argv) {
     for (int i = 0; cc[i]; i++) if (!strcmp(tool, cc[i])) return compiler(tool, argc, argv);
     if (!strcmp(tool, "ar")) return archiver(tool, argc, argv);
     if (!strncmp(tool, "drv", 3)) return driver(tool, argc, argv);
+    if (!strcmp(tool, "gen")) return generator(tool, argc, argv);
+    if (!strcmp(tool, "cpstub")) return copier(tool, argc, argv);
     if (argc >= 2 && !strcmp(argv[1], "--version") && (!strcmp(tool, "patchelf") )) { printf("patchelf 0.14\n"); }
     log_record(tool, argc, argv);
     const char *rc = getenv("VERIF_STUB_EXIT");
